@@ -100,6 +100,8 @@ type Exec struct {
 	goalValid  map[*Term]bool
 	heapClasses map[string]*heapClass
 	forceInline map[string]bool
+	uninterp    map[string]bool // pkgname.Func treated as an uninterpreted pure function in this block
+	pureOK      map[*FuncInfo]bool
 	recursing   *recursion
 	cancelL     *Loc
 	cancelModel bool
